@@ -37,6 +37,8 @@ func groups(tier string) []group {
 		gs = append(gs, group{fmt.Sprintf("members/perm%d", perm), func(tier string, y func(*scen) bool) { enumMembers(tier, perm, y) }})
 	}
 	gs = append(gs, group{"keys", enumKeys})
+	gs = append(gs, group{"leaves/0", func(tier string, y func(*scen) bool) { enumLeaves(tier, 0, y) }})
+	gs = append(gs, group{"leaves/1", func(tier string, y func(*scen) bool) { enumLeaves(tier, 1, y) }})
 	for m := 0; m < 32; m += 4 {
 		m := m
 		gs = append(gs, group{fmt.Sprintf("options/%d-%d", m, m+4), func(tier string, y func(*scen) bool) { enumOptions(tier, m, m+4, y) }})
@@ -170,7 +172,9 @@ func strClass(b []byte) string {
 // shapes
 
 func jsonable(s *tbin.Shape) bool {
-	return !jt.HasKeyType(s, func(k *tbin.Shape) bool { return k.T == tbin.STRUCT || k.T == tbin.LIST || k.T == tbin.SET || k.T == tbin.MAP || k.T == tbin.BOOL || k.Binary })
+	return !jt.HasKeyType(s, func(k *tbin.Shape) bool {
+		return k.T == tbin.STRUCT || k.T == tbin.LIST || k.T == tbin.SET || k.T == tbin.MAP || k.T == tbin.BOOL || k.Binary
+	})
 }
 
 func shapeAlphabet(tier string) []*tbin.Shape {
@@ -227,6 +231,13 @@ func enumShapes(tier string, shapes []*tbin.Shape, yield func(*scen) bool) {
 				for f := 1; f < jt.NumForms; f++ {
 					vs = append(vs, variant{jt.DocOpt{NumForm: f}, jt.Spell{}, ksFor(tier, true)})
 				}
+				if tier == "thorough" {
+					for _, sp := range jt.AllSpells() {
+						if sp.Esc >= 3 || (sp.WS == 3 && sp.Esc > 0) {
+							vs = append(vs, variant{jt.DocOpt{}, sp, []int{0, 1, 2, 3}})
+						}
+					}
+				}
 				for _, va := range vs {
 					if va.sp.Esc != 0 && hasBinary(s) {
 						continue // base64 text in escaped spelling is the scalar/binary family's business (known finding there)
@@ -241,6 +252,10 @@ func enumShapes(tier string, shapes []*tbin.Shape, yield func(*scen) bool) {
 					}
 					sc := &scen{op: "shape", trigger: fmt.Sprintf("%s@%s/num%d", shapeClass(s), w, va.o.NumForm), note: fmt.Sprintf("n=%d %s", n, va.sp), prog: prog, optName: "none",
 						doc: jt.Render(j, va.sp), want: tbin.Bytes(v), ks: va.ks}
+					// small native caches on every shape: compact spelling (quick: size 2 only), every spelling in thorough
+					if (va.sp == jt.Spell{} && va.o.NumForm == 0 && (n == 2 || tier == "thorough")) || (tier == "thorough" && va.sp.Esc == 2) {
+						sc.seeds = [][3]int{{8, 2, -1}, {1, 1, 0}, {16, -1, -1}}
+					}
 					if !yield(sc) {
 						return
 					}
@@ -842,3 +857,52 @@ func hasBinary(s *tbin.Shape) bool {
 	}
 	return false
 }
+
+// enumLeaves plants every alphabet value of every scalar type at every leaf of a nested shape and spells the
+// document in several number forms / escape spellings (lexing crossed with structure).
+func enumLeaves(tier string, which int, yield func(*scen) bool) {
+	in := tbin.StructS(tbin.SF(1, tbin.Sc(tbin.DOUBLE)), tbin.SF(2, tbin.Sc(tbin.STRING)), tbin.SF(3, tbin.Sc(tbin.I64)), tbin.SF(4, tbin.Sc(tbin.BYTE)))
+	shapes := []*tbin.Shape{
+		tbin.StructS(tbin.SF(1, tbin.MapS(tbin.Sc(tbin.I64), tbin.ListS(in))), tbin.SF(2, tbin.ListS(tbin.MapS(tbin.Sc(tbin.STRING), tbin.Sc(tbin.DOUBLE)))), tbin.SF(3, tbin.SetS(tbin.Sc(tbin.I16)))),
+		tbin.StructS(tbin.SF(1, tbin.ListS(tbin.ListS(tbin.Sc(tbin.STRING)))), tbin.SF(2, tbin.MapS(tbin.Sc(tbin.STRING), tbin.MapS(tbin.Sc(tbin.I32), tbin.BinS()))), tbin.SF(3, in), tbin.SF(4, tbin.MapS(tbin.Sc(tbin.DOUBLE), tbin.Sc(tbin.BOOL)))),
+	}
+	root := shapes[which]
+	prog := jt.Plain(root)
+	g := &tbin.Gen{}
+	base := g.Build(root, 2)
+	for _, t := range tbin.Scalars() {
+		if t.T == tbin.BOOL {
+			continue
+		}
+		for k := 0; ; k++ {
+			if jt.SetLeaf(base, t.T, k, neighbour(t)) == nil {
+				break
+			}
+			for _, w := range jt.ScalarVals(t, false) {
+				v := jt.SetLeaf(base, t.T, k, w)
+				forms := []int{0}
+				if isNum(t.T) {
+					forms = []int{0, 1, 2, 3, 4, 5}
+				}
+				for _, f := range forms {
+					j, ok := prog.Doc(v, root, jt.DocOpt{NumForm: f})
+					if !ok {
+						continue
+					}
+					spells := []jt.Spell{{}, {WS: 2}}
+					if t.T == tbin.STRING && !hasBinaryVal(v, root) {
+						spells = append(spells, jt.Spell{Esc: 1}, jt.Spell{Esc: 2}, jt.Spell{WS: 3, Esc: 4})
+					}
+					for _, sp := range spells {
+						if !yield(&scen{op: "leaves", trigger: fmt.Sprintf("leaf:%s/num%d", t.T, f), note: sp.String(), prog: prog, optName: "none", doc: jt.Render(j, sp), want: tbin.Bytes(v), ks: []int{0, 1, 2, 3, 7, 8}}) {
+							return
+						}
+					}
+				}
+			}
+		}
+	}
+}
+
+// hasBinaryVal: the document contains base64 text (escape spellings of it are the scalar/binary family's known finding).
+func hasBinaryVal(v *tbin.Val, s *tbin.Shape) bool { return hasBinary(s) }
